@@ -29,6 +29,55 @@ func scenarioFiles(dir string) ([]string, error) {
 	return out, nil
 }
 
+// replayVariant runs exactly one saved (history, variant) pair.
+func replayVariant(file, out, tmp string) error {
+	vf, err := appdrv.LoadVariant(file)
+	if err != nil {
+		return err
+	}
+	f, err := os.Create(out)
+	if err != nil {
+		return err
+	}
+	defer f.Close()
+	sink := appdrv.NewSink(f)
+	rootA, _ := os.MkdirTemp(tmp, "repA-")
+	defer os.RemoveAll(rootA)
+	a, _, err := appdrv.RunOutputs(vf.Base, "A", rootA, true)
+	if err != nil {
+		return err
+	}
+	var b []*appdrv.Output
+	if vf.How == "process" {
+		scfile := filepath.Join(rootA, "variant-scenario.json")
+		bz, _ := json.Marshal(vf.Variant)
+		if err := os.WriteFile(scfile, bz, 0o644); err != nil {
+			return err
+		}
+		bfile := filepath.Join(rootA, "b.json")
+		cmd := exec.Command(os.Args[0], "outputs", "-scenario", scfile, "-name", "B", "-tmp", tmp, "-out", bfile)
+		if o, err := cmd.CombinedOutput(); err != nil {
+			return fmt.Errorf("replica process failed: %v: %s", err, o)
+		}
+		bz, _ = os.ReadFile(bfile)
+		if err := json.Unmarshal(bz, &b); err != nil {
+			return err
+		}
+	} else {
+		rootB, _ := os.MkdirTemp(tmp, "repB-")
+		defer os.RemoveAll(rootB)
+		b, _, err = appdrv.RunOutputs(vf.Variant, "B", rootB, true)
+		if err != nil {
+			return err
+		}
+	}
+	v := &appdrv.Variant{Desc: vf.Desc, Sc: vf.Variant, Map: vf.Map}
+	pairs := appdrv.PairEvents(vf.Prop, 0, v, a, b, sink.Emit)
+	sink.Flush()
+	fmt.Printf("{\"traces\":1,\"events\":%d,\"pairs\":%d,\"scenarios\":1}\n", sink.N, pairs)
+	return nil
+}
+
 func init() {
 	register("outputs", "execute a scenario and print the comparable outputs as JSON (used as a separate process)", func(args []string) error {
 		fs := flag.NewFlagSet("outputs", flag.ExitOnError)
@@ -63,7 +112,12 @@ func init() {
 		seed := fs.Int64("seed", 1, "seed")
 		budget := fs.Int("budget", 300, "maximum number of variants per scenario")
 		full := fs.Bool("full", false, "larger injection pools / restart subsets")
+		vdir := fs.String("variants", "", "directory to save differing (history, variant) pairs to, as self-contained replay files")
+		replayFile := fs.String("replay", "", "a replay file written by -variants: run exactly that pair")
 		_ = fs.Parse(args)
+		if *replayFile != "" {
+			return replayVariant(*replayFile, *out, *tmp)
+		}
 		files, err := scenarioFiles(*scdir)
 		if err != nil {
 			return err
@@ -102,6 +156,9 @@ func init() {
 				}
 				v := appdrv.Identity(sc, "separate process, separate directory: "+filepath.Base(file))
 				n := appdrv.PairEvents("C01", k, v, a, b, sink.Emit)
+				if v.Differs(a, b) {
+					appdrv.SaveVariant(*vdir, "C01", k, "process", sc, v)
+				}
 				pairs += n
 				k++
 				variants++
@@ -113,6 +170,9 @@ func init() {
 					return err
 				}
 				pairs += appdrv.PairEvents("C01", k, rv, a, c, sink.Emit)
+				if rv.Differs(a, c) {
+					appdrv.SaveVariant(*vdir, "C01", k, "inproc", sc, rv)
+				}
 				k++
 				variants++
 				os.RemoveAll(rootC)
@@ -128,6 +188,9 @@ func init() {
 						return err
 					}
 					pairs += appdrv.PairEvents("C06", k, v, a, b, sink.Emit)
+					if v.Differs(a, b) {
+						appdrv.SaveVariant(*vdir, "C06", k, "inproc", sc, v)
+					}
 					k++
 					variants++
 					os.RemoveAll(rootB)
@@ -144,6 +207,9 @@ func init() {
 						return err
 					}
 					pairs += appdrv.PairEvents("C07", k, v, a, b, sink.Emit)
+					if v.Differs(a, b) {
+						appdrv.SaveVariant(*vdir, "C07", k, "inproc", sc, v)
+					}
 					k++
 					variants++
 					os.RemoveAll(rootB)
